@@ -92,6 +92,8 @@ struct Srv {
     data_phases: AtomicUsize,
     /// a server that takes one message per session: after a transaction every command but QUIT gets 421 and the connection is closed
     one_per_session: bool,
+    /// the acceptance of a message comes together with the farewell ("250 queued" and "421 closing" in one segment), then the server closes
+    farewell_with_acceptance: bool,
     stop: AtomicBool,
     open: AtomicUsize,
 }
@@ -273,6 +275,11 @@ fn serve(mut sock: TcpStream, k: usize, srv: Arc<Srv>) {
                     transactions += 1;
                     if let Some(f) = &f {
                         match apply(f, &mut sock) { Some(true) => break 'conn, Some(false) => continue, None => {} }
+                    }
+                    if srv.farewell_with_acceptance {
+                        ev("FAULT", json!("farewell"));
+                        reply(&mut sock, &srv, k, "250 queued\r\n421 4.7.0 one message per session, closing\r\n");
+                        break 'conn;
                     }
                     reply(&mut sock, &srv, k, "250 queued\r\n");
                 }
@@ -500,6 +507,7 @@ pub fn run_scenario(sc: &Value) -> Value {
         body_read_delay_ms: sc["body_read_delay_ms"].as_u64().unwrap_or(0),
         body_delay_first_ms: sc["body_delay_first_ms"].as_u64().unwrap_or(0), data_phases: AtomicUsize::new(0),
         one_per_session: sc["one_per_session"].as_bool().unwrap_or(false),
+        farewell_with_acceptance: sc["farewell_with_acceptance"].as_bool().unwrap_or(false),
         stop: AtomicBool::new(false), open: AtomicUsize::new(0),
     });
     let listener = TcpListener::bind("127.0.0.1:0").unwrap();
